@@ -24,6 +24,9 @@ Record round := {
   (* wire level: the observation bytes handed to Outcome (in order) and what the retirement-report cache answered for
      every attestation occurring in them; kept for small rounds only *)
   rd_wire : option (list (list Z) * list (list Z * option (gmap Z Z)));
+  (* the remaining callbacks: ObservationQuorum on the observations handed to Outcome; ShouldAcceptAttestedReport and
+     ShouldTransmitAcceptedReport on every report of the round (conjunction) *)
+  rd_callbacks : bool * bool;
   rd_rep : rep_kind;                                 (* Plugin.Reports *)
   rd_retirement : option (gmap Z Z);
   rd_reports : list report }.
@@ -296,7 +299,8 @@ Definition eval_round (h : Z -> chandef -> list Z) (cfgs : list cfg) (a : acc) (
                                            else true
                         | None => true end
                     | None => true end in
-  let bytes_agree := bytes_agree && wire_agree in
+  let callbacks_agree := Bool.eqb (fst (rd_callbacks rd)) (2 * c_f cf + 1 <=? length (rd_aos rd))%nat && snd (rd_callbacks rd) in
+  let bytes_agree := bytes_agree && wire_agree && callbacks_agree in
   match rd_out rd with
   | Ok next =>
       let obs := decodable (rd_aos rd) in
